@@ -200,9 +200,12 @@ func (calc *convexHullCalculator) reduce(inputPts []float64) []float64 {
 	 * but this doesn't matter since the points of the interior polygon
 	 * are forced to be in the reduced set.
 	 */
+	// IsPointInRing needs a closed ring (first point repeated at the end); without the closing
+	// edge points outside the octagon can be classified as inside and dropped.
+	closedRing := append(append(make([]float64, 0, len(polyPts)+calc.stride), polyPts...), polyPts[:calc.stride]...)
 	for i := 0; i < len(inputPts); i += calc.stride {
 		pt := geom.Coord(inputPts[i : i+calc.stride])
-		if !IsPointInRing(calc.layout, pt, polyPts) {
+		if !IsPointInRing(calc.layout, pt, closedRing) {
 			reducedSet.Insert(pt)
 		}
 	}
